@@ -35,9 +35,13 @@ class AsyncResult(object):
         self._is_exc = is_exc
         self._obj = obj
         self._is_ready = True
-        for cb in self._callbacks:
+        # a callback belongs to whoever takes it off the list (see add_callback)
+        while self._callbacks:
+            try:
+                cb = self._callbacks.pop(0)
+            except IndexError:
+                break
             cb(self)
-        del self._callbacks[:]
 
     def wait(self):
         """Waits for the result to arrive. If the AsyncResult object has an
@@ -56,10 +60,15 @@ class AsyncResult(object):
 
         :param func: the callback function to add
         """
+        # the result may be arriving in another thread right now: register first, then look; if it has
+        # arrived, the function is run by whoever removes it from the list - exactly once either way
+        self._callbacks.append(func)
         if self._is_ready:
+            try:
+                self._callbacks.remove(func)
+            except ValueError:
+                return
             func(self)
-        else:
-            self._callbacks.append(func)
 
     def set_expiry(self, timeout):
         """Sets the expiry time (in seconds, relative to now) or ``None`` for
